@@ -18,8 +18,9 @@ RULE = ("cases: random clamped shapes (curve/surface/volume, rational or not, no
         "r >= 1 in a direction with an interior span structure or a rational shape; distinct = distinct case hash.")
 ASSUMPTIONS = ["nvmon.ref exact reference model", "only removable knots are removed (created by insertion/refinement in the same "
                "history), named either by the value read back from the object or - in the caller-value histories - by the very float the caller inserted",
-               "explored domain of DESIGN.md section 3; tolerance 1e-9*scale (1e-8*scale for restored control points), widened by the sound "
-               "conditioning bound 1e-13*(range/distance to nearest knot)^copies when that exceeds it (A5.8 divides by alpha per removed copy)"]
+               "explored domain of DESIGN.md section 3; tolerance 1e-9*scale (1e-8*scale for restored control points), widened only by the "
+               "conditioning of the PROBLEM: 1e-14 * product over the removals of the smaller of the two chain products of Eq. 5.28 for the best "
+               "meeting point (reported as max_conditioning_factor_applied; 1..3 in practice) - not by what Algorithm A5.8 as printed amplifies"]
 FLOORS = {'quick': {'removal': 300, 'probe-lib': 3000, 'probe-defn': 3000, 'structure': 300, 'restored': 120},
           'thorough': {'removal': 4000, 'probe-lib': 40000, 'restored': 1500}}
 MANDATORY_TAGS = ['large', 'pdim1', 'pdim2', 'pdim3', 'rational', 'multi-dir-one-call', 'partial-removal', 'full-removal', 'after-refine', 'interleaved',
